@@ -525,12 +525,18 @@ def run_registry_case(case):
     counter = [0]
     inits = [0]
     declared = []
-    orig_init = world.Leaf.__init__
+    orig_init, orig_own_init = world.Leaf.__init__, world.Own.__init__
 
     def counting_init(self, n=0, m=0):
         inits[0] += 1
         orig_init(self, n, m)
+
+    def counting_own_init(self, n=0, m=0):
+        inits[0] += 1
+        orig_own_init(self, n, m)
     world.Leaf.__init__ = counting_init
+    world.Own.__init__ = counting_own_init
+    root = world.Own if case.get("hier") == "ownnew" else world.Base
 
     def register(o):
         counter[0] += 1
@@ -560,10 +566,10 @@ def run_registry_case(case):
                     rec["symbolic"] = isinstance(o, SymbolicExpression)
                     rec["inits"] = inits[0]
                 elif op == "infer":
-                    src = [o for o in keep if isinstance(o, world.Base) and id(o) in log][:ev["n"]]
+                    src = [o for o in keep if isinstance(o, root) and id(o) in log][:ev["n"]]
                     rec["got"] = []
                     if ev["n"] > 0:
-                        x = let(world.Base, domain=src)
+                        x = let(root, domain=src)
                         with rule_mode():
                             q = infer(entity(world.P(a=x), x.n >= 0))
                         for inst in q.evaluate():
@@ -600,6 +606,7 @@ def run_registry_case(case):
             out["evs"].append(rec)
     finally:
         world.Leaf.__init__ = orig_init
+        world.Own.__init__ = orig_own_init
     return out
 
 
